@@ -81,20 +81,31 @@ Section Mem.
     else if (offset + 32) mod u64 <? offset then None
     else Some (mkMem (overwrite (m_store m) (N.to_nat offset) (be_bytes 32 val)) (m_tail m) (m_last_gas m)).
 
-  (* memory.go: GetCopy / GetPtr (reading) — size == 0 gives nil *)
+  (* the whole backing array, store[:cap] *)
+  Definition backing (m : memory) : list N := m_store m ++ m_tail m.
+
+  (* memory.go: GetCopy / GetPtr (reading) — size == 0 gives nil.  The Go slice expression
+     m.store[offset:offset+size] is legal up to the CAPACITY, not the length: an access
+     beyond len but within cap does not panic, it reads the backing array. *)
   Definition mem_get (m : memory) (offset size : N) : option (list N) :=
     if size =? 0 then Some []
-    else if (mlen m <? offset + size) then None
-    else Some (firstn (N.to_nat size) (skipn (N.to_nat offset) (m_store m))).
+    else if (mcap m <? offset + size) then None
+    else Some (firstn (N.to_nat size) (skipn (N.to_nat offset) (backing m))).
 
-  (* memory.go: Copy — copy(m.store[dst:], m.store[src:src+len]), memmove semantics *)
+  (* memory.go: Copy — copy(m.store[dst:], m.store[src:src+len]), memmove semantics;
+     the source slice may likewise extend into the capacity, the destination may not *)
   Definition mem_copy (m : memory) (dst src len : N) : option memory :=
     if len =? 0 then Some m
-    else if (mlen m <? src + len) || (mlen m <? dst) then None
+    else if (mcap m <? src + len) || (mlen m <? dst) then None
     else
-      let chunk := firstn (N.to_nat len) (skipn (N.to_nat src) (m_store m)) in
+      let chunk := firstn (N.to_nat len) (skipn (N.to_nat src) (backing m)) in
       let room := (length (m_store m) - N.to_nat dst)%nat in
       Some (mkMem (overwrite (m_store m) (N.to_nat dst) (firstn room chunk)) (m_tail m) (m_last_gas m)).
+
+  (* interpreter.go: "memory is expanded ... mem.Resize(memorySize)" BEFORE operation.execute:
+     every access of an opcode lies within len.  [true] = the access is covered. *)
+  Definition within_len (m : memory) (offset size : N) : bool :=
+    (size =? 0) || (offset + size <=? mlen m).
 
   (* gas_table.go: memoryGasCost.  None = ErrGasUintOverflow.  Mutates lastGasCost. *)
   Definition to_word_size (size : N) : N :=
@@ -128,7 +139,8 @@ Section Mem.
                                 sync.Pool.Get hands out pooled object number [pick], or a new one *)
 
   Inductive mobs := MUnit | MBytes (b : list N) | MNum (n : N) | MErr (c : N).
-  (* error classes: 1 panic, 2 ErrGasUintOverflow *)
+  (* error classes: 1 panic, 2 ErrGasUintOverflow, 3 access not covered by a preceding Resize
+     (outside the interpreter's contract; not executed) *)
 
   Definition mpstate := (memory * list memory)%type.      (* the frame's object, the pool *)
 
@@ -154,10 +166,16 @@ Section Mem.
                        | Some m' => ((m', pool), MUnit) | None => (st, MErr 1) end
     | MSet32 off v => match mem_set32 m off v with
                       | Some m' => ((m', pool), MUnit) | None => (st, MErr 1) end
-    | MCopy d s l => match mem_copy m d s l with
-                     | Some m' => ((m', pool), MUnit) | None => (st, MErr 1) end
-    | MGet off sz => match mem_get m off sz with
-                     | Some b => (st, MBytes b) | None => (st, MErr 1) end
+    | MCopy d s l =>
+        if within_len m d l && within_len m s l then
+          match mem_copy m d s l with
+          | Some m' => ((m', pool), MUnit) | None => (st, MErr 1) end
+        else (st, MErr 3)
+    | MGet off sz =>
+        if within_len m off sz then
+          match mem_get m off sz with
+          | Some b => (st, MBytes b) | None => (st, MErr 1) end
+        else (st, MErr 3)
     | MLen => (st, MNum (mlen m))
     | MGas n => match memory_gas_cost m n with
                 | Some (fee, m') => ((m', pool), MNum fee) | None => (st, MErr 2) end
@@ -197,10 +215,16 @@ Definition rstep (st : rstate) (o : mop) : rstate * mobs :=
                      | Some m' => (rback m', MUnit) | None => (st, MErr 1) end
   | MSet32 off v => match mem_set32 m off v with
                     | Some m' => (rback m', MUnit) | None => (st, MErr 1) end
-  | MCopy d s l => match mem_copy m d s l with
-                   | Some m' => (rback m', MUnit) | None => (st, MErr 1) end
-  | MGet off sz => match mem_get m off sz with
-                   | Some b => (st, MBytes b) | None => (st, MErr 1) end
+  | MCopy d s l =>
+      if within_len m d l && within_len m s l then
+        match mem_copy m d s l with
+        | Some m' => (rback m', MUnit) | None => (st, MErr 1) end
+      else (st, MErr 3)
+  | MGet off sz =>
+      if within_len m off sz then
+        match mem_get m off sz with
+        | Some b => (st, MBytes b) | None => (st, MErr 1) end
+      else (st, MErr 3)
   | MLen => (st, MNum (mlen m))
   | MGas n => match memory_gas_cost m n with
               | Some (fee, m') => (rback m', MNum fee) | None => (st, MErr 2) end
